@@ -219,12 +219,12 @@ func c18Extremes(c *Ctx, idx int) {
 	f64 := []any{1e308, -1e308, math.MaxFloat64, 1e-300, -1e-300, math.SmallestNonzeroFloat64, 1e200, 1e-200, float64(3), float64(0), 2.5e307}
 	f32 := []any{float32(3e38), float32(-3e38), float32(math.MaxFloat32), float32(1e-38), float32(1e-45), float32(2), float32(0)}
 	dec := []any{decimal128.MustParse("9e6144"), decimal128.MustParse("-9e6144"), decimal128.MustParse("1e-6143"), decimal128.MustParse("1e6100"), decimal128.MustParse("3"), decimal128.MustParse("0")}
-	jn := []any{json.Number("9e6144"), json.Number("1e-6143"), json.Number("1e6100"), json.Number("3"), json.Number("0"), json.Number("1e400"), json.Number("1e-400")}
+	jn := []any{json.Number("9e6144"), json.Number("1e-6143"), json.Number("1e6100"), json.Number("3"), json.Number("0"), json.Number("1e400"), json.Number("1e-400"), json.Number("12e6144"), json.Number("250e6143"), json.Number("-123456789012345678e6130"), json.Number("99e6144"), json.Number("1e6145"), json.Number("-12e6144"), json.Number("0.001e6148"), json.Number("1e-6177"), json.Number("123e-6178")}
 	pools := [][]any{f64, f32, dec, jn, append(append([]any{}, f64...), f32...)}
 	pool := pools[idx%len(pools)]
 	a, b := gen.Pick(r, pool), gen.Pick(r, pool)
 	data := map[string]any{"a": a, "b": b, "xs": []any{a, b, a}}
-	forms := []string{"a / b", "a * b", "a + b", "a - b", "a // b", "a % b", "-a", "abs(a)", "[a / b]", "{k: a * b}", "sum(xs)", "avg(xs)", "a * a * a", "a / b / b", "max(xs) * min(xs)", "map(&(@ * a), xs)", "xs[?@ / b > `1`]", "ceil(a / b)", "floor(a * b)", "to_number(to_string(a)) * b", "let $v = a * b in $v", "not_null(a / b)", "a * b == a * b"}
+	forms := []string{"a / b", "a * b", "a + b", "a - b", "a // b", "a % b", "-a", "abs(a)", "[a / b]", "{k: a * b}", "sum(xs)", "avg(xs)", "a * a * a", "a / b / b", "max(xs) * min(xs)", "map(&(@ * a), xs)", "xs[?@ / b > `1`]", "ceil(a / b)", "floor(a * b)", "to_number(to_string(a)) * b", "let $v = a * b in $v", "not_null(a / b)", "a * b == a * b", "max(xs)", "min(xs)", "ceil(a)", "floor(a)", "[abs(a), -a]", "sort(xs)", "max_by([{k: a}, {k: b}], &k)", "sort_by([{k: a}, {k: b}], &k)", "a", "[a, b]", "to_number(to_string(a))", "xs[?@ == a]", "a == b", "a < b"}
 	for _, f := range forms {
 		l := c.LibSearch(f, data)
 		c.Nontrivial(f, gen.Describe(data))
